@@ -274,22 +274,43 @@ NEGATION_PAIRS = [("assert_equal", "assert_not_equal"), ("assert_in", "assert_no
 DEFAULT_DELTA = float(rt.assert_equal.DELTA)
 
 
-def run_real(name, a, b=None, exact=False, delta=None):
-    """Outcome of the real assertion: 'silent' | 'fires' | 'escapes:<Exc>' | 'inconsistent'."""
+_param_names = {}
+
+
+def param_names(name):
+    """names of the two operand parameters of the assertion's constructor"""
+    if name not in _param_names:
+        import inspect
+        _param_names[name] = [p for p in inspect.signature(getattr(rt, name).__init__).parameters][1:3]
+    return _param_names[name]
+
+
+def camel(name):
+    parts = name.split("_")
+    return parts[0] + "".join(p.capitalize() for p in parts[1:])
+
+
+def run_real(name, a, b=None, exact=False, delta=None, spelling="positional"):
+    """Outcome of the real assertion: 'silent' | 'fires' | 'escapes:<Exc>' | 'inconsistent'.
+    spelling: positional | keyword (operands passed by parameter name) | alias (camelCase name if it exists)"""
     fn = getattr(rt, name)
+    if spelling == "alias":
+        fn = getattr(rt, camel(name), fn)
     clear_report()
     try:
         if name in UNARY:
-            fb = fn(a)
+            operands, extra = [a], {}
         elif name in EQUAL:
-            fb = fn(a, b, exact_strings=exact, delta=DEFAULT_DELTA if delta is None else delta)
+            operands, extra = [a, b], {"exact_strings": exact, "delta": DEFAULT_DELTA if delta is None else delta}
         elif name in OUTPUT:
-            if name in ("assert_output_regex", "assert_not_output_regex"):
-                fb = fn(b, a, exact_strings=exact)
-            else:
-                fb = fn(a, b, exact_strings=exact)
+            operands = [b, a] if name in ("assert_output_regex", "assert_not_output_regex") else [a, b]
+            extra = {"exact_strings": exact}
         else:
-            fb = fn(a, b)
+            operands, extra = [a, b], {}
+        if spelling == "keyword":
+            fb = fn(**dict(zip(param_names(name), operands)), **extra)
+        else:
+            fb = fn(*operands, **extra)
         fired = bool(fb)
         listed = any(f is fb for f in MAIN_REPORT.feedback)
         ignored = any(f is fb for f in MAIN_REPORT.ignored_feedback)
@@ -354,11 +375,13 @@ def widen(cls):
     return cls
 
 
-def oracle(name, a, b=None, exact=False, delta=None, printed=None):
+def oracle(name, a, b=None, exact=False, delta=None, printed=None, spelling=None):
     """Does the asserted relation hold for the RAW operands?  (=> the assertion must be silent)"""
     a, b = raw(a), raw(b)
     if isinstance(a, BaseException) or isinstance(b, BaseException):
         return False
+    if isinstance(a, rt.Sandbox) and a.exception is not None:
+        return False            # an execution that ended in an error satisfies nothing
     d = DEFAULT_DELTA if delta is None else delta
     table = {
         "assert_less": lambda: a < b,
